@@ -31,6 +31,8 @@ type BlockShape struct {
 	G    map[string]int `json:"g"`
 	Seqs []int          `json:"seqs"`
 	Conc int            `json:"conc"`
+	EdUs int            `json:"ed"` // Block.EntranceDelay in microseconds
+	XdUs int            `json:"xd"` // Block.ExitDelay in microseconds
 	Tol  int            `json:"tol"`
 }
 
@@ -167,7 +169,8 @@ func buildPlan(sc *Scenario, pl int) *workflow.Plan {
 		}
 	}
 	for bi, gb := range sh.Blocks {
-		b := &workflow.Block{Name: fmt.Sprintf("b%d", bi+1), Descr: "b", Concurrency: gb.Conc, ToleratedFailures: gb.Tol}
+		b := &workflow.Block{Name: fmt.Sprintf("b%d", bi+1), Descr: "b", Concurrency: gb.Conc, ToleratedFailures: gb.Tol,
+			EntranceDelay: time.Duration(gb.EdUs) * time.Microsecond, ExitDelay: time.Duration(gb.XdUs) * time.Microsecond}
 		for _, g := range groupOrder {
 			if n := gb.G[g]; n > 0 {
 				*groupPtr(p, b, g) = mk(b.Name+"."+g, n)
